@@ -501,7 +501,7 @@ def gen_progset(rng, fw, data, tvec=None):
                 continue
             sub = [n for n in names if pop in g.programs[n].target_pops and rng.random() < 0.8]
             baseline = rng.choice([0.0, 0.1, 0.25])
-            outs = {n: rng.choice([0.2, 0.5, 0.75, round(rng.uniform(0, 1), 3)]) for n in sub}
+            outs = {n: rng.choice([0.2, 0.5, 0.75, 0.0, round(rng.uniform(0, 1), 3)]) for n in sub}   # an outcome of exactly 0 is a value, not an empty cell
             inter = None
             if len(sub) >= 2 and rng.random() < 0.3:
                 inter = "+".join(rng.sample(sub, 2)) + "=" + repr(rng.choice([0.6, 0.8, 0.95]))
